@@ -170,17 +170,23 @@ NETS_FOR_TREES = {
     5: (("a", "b"), ("b", "c"), ("c", "d"), ("d", "e"), ("e", "a", "x")),
     6: (("a", "b"), ("b", "c"), ("c", "d"), ("d", "e"), ("e", "f"),
         ("f", "a")),
+    7: (("a", "b"), ("b", "c"), ("c", "d"), ("d", "e", "x"), ("e", "f"),
+        ("f", "g"), ("g", "a", "x")),
 }
 
 
 def units(tier, seed):
     us = []
-    top = 6  # (the thorough bound costs two seconds: both tiers use it)
+    # n <= 6 costs two seconds: both tiers; thorough adds all 10395 trees
+    # over 7 tensors (with a hyper output index)
+    top = 7 if tier == "thorough" else 6
     for n in range(2, top + 1):
-        ntrees = [1, 3, 15, 105, 945][n - 2]
+        ntrees = [1, 3, 15, 105, 945, 10395][n - 2]
         cs = 8 if n >= 5 else 60
         if n == 6:
             cs = 30
+        if n == 7:
+            cs = 120
         for a in range(0, ntrees, cs):
             us.append(("trees", n, a, min(a + cs, ntrees), tier, seed))
     for n in range(2, 6):
